@@ -39,7 +39,7 @@ CHECKS['C08'] = dict(
 _MODEL_NOTE = 'Trusts the reference model lyref/lynative (calibrated against the unchanged tree; refuses where behaviour is indeterminate) and samples a bounded program space.'
 CHECKS['C02'] = dict(
     technique='reference-model differential monitor over generated scope skeletons with unique-integer variables, under two builds and a dense collection schedule',
-    text='Generated scope skeletons (closures stored/returned/called after the declaring call returned, factories, loop-variable vs body-local capture, catch variables, self capture, shadowing) are executed on debug, release and debug under collection at every 3rd allocation; stdout is compared with a reference model in which every execution of a declaration allocates a fresh cell. Unique integer values identify which cell was read.',
+    text='Generated scope skeletons (closures stored/returned/called after the declaring call returned, factories, loop-variable vs body-local capture, catch variables, self capture, shadowing, variables of an enclosing function mentioned at exactly one syntactic position of a nested function: map key/value, list/tuple element, index, interpolation, ternary, and/or, unary, call argument, nested lambda) are executed on debug, release and debug under collection at every 3rd allocation; stdout is compared with a reference model in which every execution of a declaration allocates a fresh cell. Unique integer values identify which cell was read.',
     note=_MODEL_NOTE, ref='DESIGN.md §2 C02')
 CHECKS['C03'] = dict(
     technique='reference-model differential monitor over generated class hierarchies and shared call sites with receiver-class sequences; cache-off self-differential',
@@ -57,7 +57,7 @@ CHECKS['C05'] = dict(
     note=_SELF_NOTE, ref='DESIGN.md §2 C05')
 CHECKS['C13'] = dict(
     technique='cache on/off self-differential via a cache-disable hook, under dense collection schedules with a LIFO address-reuse allocator',
-    text='Baseline forces every inline-cache lookup to miss; variants run with caches on in debug and release, also under collection at every allocation with an allocator that hands a freed block to the next same-size request (so a new class lands on the address of a collected one); workload: shared call sites with receiver-class sequences, classes created and dropped at run time, same-named classes with different layouts. Identical outcome/stdout required; cache hits, misses, fills and clears are counted by the hook.',
+    text='Workload includes classes that reach shared invoke sites only (field-less, some lacking the method so a stale hit turns an error into a call; static methods with the class as receiver), so an invoke-cache entry is the only remaining reference to a dropped class. Baseline forces every inline-cache lookup to miss; variants run with caches on in debug and release, also under collection at every allocation with an allocator that hands a freed block to the next same-size request (so a new class lands on the address of a collected one); workload: shared call sites with receiver-class sequences, classes created and dropped at run time, same-named classes with different layouts. Identical outcome/stdout required; cache hits, misses, fills and clears are counted by the hook.',
     note=_SELF_NOTE, ref='DESIGN.md §2 C13')
 CHECKS['C14'] = dict(
     technique='two-build self-differential (tagged enum vs NaN-boxed) + reference-model IEEE programs on both builds + Rust-level Value round-trip monitor',
@@ -94,7 +94,7 @@ CHECKS['C18'] = dict(
 
 CHECKS['C19'] = dict(
     technique='session-vs-file self-differential + reference model over generated prompt sessions fed line by line to the real REPL',
-    text='Generated sessions (definitions, calls into any earlier line, functions with property/invoke sites over earlier objects, classes extended later, closures over session variables, entries that fail to compile or raise, entries that define a function with call sites and then raise, each followed by probes of earlier definitions through differently named methods) are fed to Vm::repl through stdin; every fifth session launches fibers on one line and receives from them on later lines (oracle: the same lines as one file), and a fixed corpus of 240 sessions in which main also sends to earlier fibers is compared against a committed per-session list (known finding D47); the output with prompts stripped must equal the reference model and the output of the good lines run as one file; debug, release and debug under a collection schedule with address reuse.',
+    text='Also generated import sessions (sites warmed, file modules with 0..6 cache sites imported mid-session, new sites on the same class afterwards; expected transcript known by construction). Generated sessions (definitions, calls into any earlier line, functions with property/invoke sites over earlier objects, classes extended later, closures over session variables, entries that fail to compile or raise, entries that define a function with call sites and then raise, each followed by probes of earlier definitions through differently named methods) are fed to Vm::repl through stdin; every fifth session launches fibers on one line and receives from them on later lines (oracle: the same lines as one file), and a fixed corpus of 240 sessions in which main also sends to earlier fibers is compared against a committed per-session list (known finding D47); the output with prompts stripped must equal the reference model and the output of the good lines run as one file; debug, release and debug under a collection schedule with address reuse.',
     note=_MODEL_NOTE + ' Every entry is one physical line (the prompt reads lines). Sessions whose file run is not clean (scheduler findings of C07/C08) are skipped.', ref='DESIGN.md §2 C19')
 
 CHECKS['C15'] = dict(
